@@ -33,8 +33,10 @@
 //!
 
 use crate::alias;
+use crate::chardef;
 use crate::def;
 use crate::math;
+use crate::mathchardef;
 use crate::registers;
 use std::collections::HashSet;
 use texcraft_stdext::collections::groupingmap;
@@ -77,6 +79,8 @@ impl Default for Tags {
                 alias::let_tag(),
                 math::variable_op_tag(),
                 registers::countdef_tag(),
+                chardef::chardef_tag(),
+                mathchardef::mathchardef_tag(),
             ]
             .into_iter()
             .collect(),
